@@ -89,6 +89,8 @@ struct World<'a> {
 /// second component: the *named* form (variable names with the interner's / id generator's
 /// numbers) — not part of the bytes, but the state the replay mechanism promises to reproduce
 fn compile(world: &World, generator: &mut CodeGenerator<'_>, req: &Req) -> Result<(String, String), String> {
+    // the harness build's pre-optimisation sink (aiken-lang verif-hooks) grows with every program: keep it empty
+    drop(aiken_lang::gen_uplc::verif_hooks::drain_pre_optimisation());
     guarded(AssertUnwindSafe(|| match req {
         Req::Validator(m, v) => {
             let p = generator.generate(v, &m.name);
@@ -434,10 +436,12 @@ fn replica_outputs(rp: &replica::Replica, tracing: Tracing) -> Result<BTreeMap<S
             for d in m.ast.definitions() {
                 match d {
                     Definition::Validator(v) => {
+                        drop(aiken_lang::gen_uplc::verif_hooks::drain_pre_optimisation());
                         let mut g = rp.new_generator(tracing);
                         out.insert(format!("validator {name}.{}", v.name), projgen::program_hex(&g.generate(v, name)));
                     }
                     Definition::Test(t) => {
+                        drop(aiken_lang::gen_uplc::verif_hooks::drain_pre_optimisation());
                         let mut g = rp.new_generator(tracing);
                         let test = Test::from_function_definition(&mut g, t.to_owned(), name.clone(), m.input_path.clone(), RunnableKind::Test);
                         let mut progs = BTreeMap::new();
@@ -527,11 +531,13 @@ fn build_with(dir: &Path, tracing: Tracing, all: bool) -> Result<Vec<u8>, String
 }
 
 /// one full observation of a project directory (build ×2, check ×1 with the hook installed)
-pub fn observe(dir: &Path, tl: u8) -> Result<Observation, String> {
+pub fn observe(dir: &Path, tl: u8, with_all: bool) -> Result<Observation, String> {
     let tracing = projgen::tracing_of(tl);
     let r = guarded(AssertUnwindSafe(|| -> Result<Observation, String> {
+        drop(aiken_lang::gen_uplc::verif_hooks::drain_pre_optimisation());
         let blueprint = String::from_utf8_lossy(&build_with(dir, tracing, false)?).to_string();
-        let blueprint_all_types = String::from_utf8_lossy(&build_with(dir, tracing, true)?).to_string();
+        let blueprint_all_types =
+            if with_all { String::from_utf8_lossy(&build_with(dir, tracing, true)?).to_string() } else { String::new() };
         let _ = c17::take_audits();
         projgen::check(dir, tracing, 42, 1)?;
         let audits = c17::take_audits();
@@ -570,7 +576,34 @@ fn describe_diff(a: &Observation, b: &Observation) -> serde_json::Value {
     json!({"differs": what, "first_differing_blueprint_line": first_line})
 }
 
-fn repeated_builds(rep: &mut Report, p: &GenProject, dir: &Path, tl: u8, r: &mut Prng, n: usize) -> Option<Observation> {
+/// `aiken build --all-types` overflows the stack on some projects (a crash, not a nondeterminism:
+/// recorded, see notes/C09.md); a stack overflow cannot be caught in-process, so projects that
+/// declare a public generic type are probed in a child process first
+fn all_types_export_survives(rep: &mut Report, p: &GenProject, dir: &Path, tl: u8) -> bool {
+    let generic_public_type = p.files.iter().any(|(_, src)| {
+        src.lines().any(|l| {
+            let l = l.trim_start();
+            (l.starts_with("pub type ") || l.starts_with("pub opaque type ")) && l.contains('<')
+        })
+    });
+    if !generic_public_type {
+        return true;
+    }
+    projgen::write_project(p, dir, None);
+    match c17::run_child("c09-child", dir, 1, &[tl.to_string(), "1".into()]) {
+        Ok(_) => true,
+        Err(e) => {
+            rep.count("all-types-export-crashes-the-process(skipped; C10 defect, proposed_fixes/C10-blueprint-reference-self-generic.diff)");
+            if rep.notes.len() < 6 {
+                rep.notes.push(format!("`aiken build --all-types` kills the process on project {} ({}); all-types observable skipped for it", p.name, e.chars().take(80).collect::<String>()));
+            }
+            false
+        }
+    }
+}
+
+fn repeated_builds(rep: &mut Report, p: &GenProject, dir: &Path, tl: u8, r: &mut Prng, n: usize) -> Option<(Observation, bool)> {
+    let with_all = all_types_export_survives(rep, p, dir, tl);
     let mut baseline: Option<Observation> = None;
     let mut orders_seen = std::collections::BTreeSet::new();
     for k in 0..n {
@@ -582,7 +615,7 @@ fn repeated_builds(rep: &mut Report, p: &GenProject, dir: &Path, tl: u8, r: &mut
             }
         }
         projgen::write_project(p, dir, Some(&order));
-        let obs = match observe(dir, tl) {
+        let obs = match observe(dir, tl, with_all) {
             Ok(o) => o,
             Err(e) => {
                 if e.starts_with("panic") {
@@ -615,7 +648,7 @@ fn repeated_builds(rep: &mut Report, p: &GenProject, dir: &Path, tl: u8, r: &mut
                         p.to_json(),
                         json!({"tracing": tl, "history_a": "build #0", "history_b": format!("build #{k} (files created in order {:?})", order), "diff": describe_diff(b, &obs)}),
                     );
-                    return baseline;
+                    return baseline.map(|b| (b, with_all));
                 }
             }
         }
@@ -623,7 +656,7 @@ fn repeated_builds(rep: &mut Report, p: &GenProject, dir: &Path, tl: u8, r: &mut
     if orders_seen.len() > 1 {
         rep.count("repeat:test-collection-order-varies-between-builds(not an output)");
     }
-    baseline
+    baseline.map(|b| (b, with_all))
 }
 
 // ------------------------------------------------------------------ (d) child processes
@@ -634,7 +667,8 @@ pub fn child(args: &[String]) -> ! {
     c17::install_hook();
     let dir = std::path::PathBuf::from(&args[2]);
     let tl: u8 = args[3].parse().unwrap();
-    let doc = match observe(&dir, tl) {
+    let with_all = args.get(4).map(|a| a == "1").unwrap_or(true);
+    let doc = match observe(&dir, tl, with_all) {
         Ok(o) => json!({"ok": true, "blueprint": o.blueprint, "blueprint_all_types": o.blueprint_all_types, "tests": o.tests}),
         Err(e) => json!({"ok": false, "error": e}),
     };
@@ -642,9 +676,9 @@ pub fn child(args: &[String]) -> ! {
     std::process::exit(0)
 }
 
-fn child_runs(rep: &mut Report, p: &GenProject, dir: &Path, tl: u8, base: &Observation) {
+fn child_runs(rep: &mut Report, p: &GenProject, dir: &Path, tl: u8, base: &Observation, with_all: bool) {
     for &n in &[1usize, 2, 16] {
-        match c17::run_child("c09-child", dir, n, &[tl.to_string()]) {
+        match c17::run_child("c09-child", dir, n, &[tl.to_string(), if with_all { "1".into() } else { "0".into() }]) {
             Ok(doc) => {
                 rep.evaluations += 1;
                 rep.count(&format!("child:RAYON_NUM_THREADS={n}"));
@@ -698,13 +732,19 @@ pub fn run(ctx: &Ctx) -> Report {
     for (pi, p) in projects.iter().enumerate() {
         let dir = scratch.join(format!("c09-{pi}"));
         let tl = r.below(3) as u8;
+        if let Ok(f) = std::env::var("VERIF_TRACE") {
+            use std::io::Write;
+            if let Ok(mut fh) = std::fs::OpenOptions::new().create(true).append(true).open(f) {
+                let _ = writeln!(fh, "c09 project {pi} {} tracing={tl}", p.name);
+            }
+        }
         let generated = !p.name.starts_with("example-");
         // examples get fewer repetitions (there are many of them)
         let reps = if generated { repeats } else { (repeats / 4).max(3) };
         let base = repeated_builds(&mut rep, p, &dir, tl, &mut r, reps);
-        if let Some(base) = &base {
+        if let Some((base, with_all)) = &base {
             if pi < n_child {
-                child_runs(&mut rep, p, &dir, tl, base);
+                child_runs(&mut rep, p, &dir, tl, base, *with_all);
             }
             registration_exploration(&mut rep, p, tl, &mut r, if generated { n_orders } else { 3 });
             if generated && hist_done < n_hist {
